@@ -157,7 +157,7 @@ func c11BulkRanges(fd *ast.FuncDecl) []string {
 func init() {
 	addSection("C11", func(w *bytes.Buffer) {
 		w.WriteString("/-! struct tags the marshaller model is written against; worksheet field order; bulkAppendFields ranges -/\n")
-		for _, st := range []string{"xlsxC", "xlsxF", "xlsxSI", "xlsxT", "xlsxR", "xlsxRow"} {
+		for _, st := range []string{"xlsxC", "xlsxF", "xlsxSI", "xlsxT", "xlsxR", "xlsxRow", "xlsxPane", "xlsxSelection"} {
 			fs, ok := c11StructFields(st)
 			if !ok {
 				fail("struct type %s", st)
